@@ -368,8 +368,9 @@ def run_one(comp: Any, case: dict[str, Any], watchdog: int) -> dict[str, Any]:
         return res
     except RuntimeError as e:  # not expected with the guard: runtime failure
         res['rebuild'] = True
-        res['status'] = 'harness_error'
-        res['err'] = 'compile failed outside the pass: %s' % parse_remote_error(str(e.__cause__ or e))
+        txt = str(e.__cause__) if e.__cause__ is not None else str(e)
+        res['status'] = 'harness_error' if 'Traceback' in txt else 'infrastructure'
+        res['err'] = 'compile failed outside the guarded pass: %r caused by %r' % (e, e.__cause__)
         return res
     finally:
         signal.alarm(0)
@@ -463,11 +464,18 @@ def run_batch(arg: tuple[int, str, list[int]]) -> list[dict[str, Any]]:
             if comp is None:
                 comp = wl.safe_compiler(1)
             t0 = time.monotonic()
-            try:
-                r = run_one(comp, case, wd)
-            except Exception as e:  # harness failure: never a verdict
-                r = {'w': [], 'c': {}, 'info': {}, 'status': 'harness_error', 'rebuild': True,
-                     'err': '%s: %s @ %s' % (type(e).__name__, str(e)[:200], core.short_tb(e))}
+            for attempt in range(3):
+                if comp is None:
+                    comp = wl.safe_compiler(1)
+                try:
+                    r = run_one(comp, case, wd)
+                except Exception as e:  # harness failure: never a verdict
+                    r = {'w': [], 'c': {}, 'info': {}, 'status': 'harness_error', 'rebuild': True,
+                         'err': '%s: %s @ %s' % (type(e).__name__, str(e)[:200], core.short_tb(e))}
+                if r['status'] != 'infrastructure':
+                    break
+                wl.close_compiler(comp)
+                comp = None
             r['wall'] = time.monotonic() - t0
             if r['rebuild']:
                 wl.close_compiler(comp)
@@ -517,6 +525,9 @@ def merge(run: core.Run, r: dict[str, Any], shrunk_kinds: set[str]) -> None:
     name = meta['partitioner']
     if r['status'] == 'harness_error':
         run.inconclusive_because('harness error in case %d: %s' % (meta['idx'], r.get('err')))
+        return
+    if r['status'] == 'infrastructure':
+        run.inconclusive_because('runtime connection broke three times in case %d: %s' % (meta['idx'], r.get('err')))
         return
     if r['status'] == 'timeout':
         run.count('timeout:' + name)
